@@ -94,6 +94,7 @@ Fixpoint lower (i : instr) : list winstr :=
   | IBrTable ls d => [WOp 0x0e (map Z.of_nat ls ++ [Z.of_nat d])]
   | IReturn => [WOp 0x0f []]
   | IUnreachable => [WOp 0x00 []]
+  | IRaw op imm => [WOp op imm]
   end.
 
 (* locals renumbered in order of first use *)
